@@ -343,7 +343,10 @@ def st_program(draw, cfg, universe=None, leaves=None):
         eng = engine_of(main, leaves)
         choice = "u"
         r = draw(st.integers(0, 99))
-        if cfg.binary and r < cfg.p_binary * 100 * (2 if main[0] in ("slice", "proj", "dedup") else 1):
+        boost = 2 if main[0] in ("slice", "proj", "dedup") else 1
+        if main[0] == "calc" and any(schema(h, leaves) == cols and engine_of(h, leaves) == eng for h in history[:-1]):
+            boost = 4  # a calculation re-created a column an earlier version of the program had: chain them
+        if cfg.binary and r < cfg.p_binary * 100 * boost:
             choice = draw(st.sampled_from(cfg.binary))
         elif cfg.markers and r >= 100 - 6 * len(cfg.markers):
             choice = draw(st.sampled_from(cfg.markers))
